@@ -25,7 +25,7 @@ ASSUMPTIONS = [
     "bintest with target_only accepts BH over on-target bins only (what the code does) or over all bins then filtered",
     "bins whose adjusted p is within 1e-12 of alpha may fall either side",
 ]
-BUDGET_S = {"quick": 240, "thorough": 1500}
+BUDGET_S = {"quick": 600, "thorough": 2400}
 LOC = ("mean", "median", "mode", "p_ttest")
 SPREAD = ("stdev", "mad", "mse", "iqr", "bivar", "sem")
 INTERVAL = ("ci", "pi")
